@@ -92,6 +92,7 @@ def run(ctx):
         rd = {}
         # single-byte fields: local = slice[const]
         consts = {}
+        rd_local = {}
         for blk in r.live_blocks():
             for s in r.blocks[blk]["s"]:
                 if "a" in s and len(s["a"]) == 1 and s["v"]["r"] == "use" and "k" in s["v"]["o"] and s["v"]["o"]["k"].endswith("_usize"):
@@ -102,9 +103,8 @@ def run(ctx):
                     pl = s["v"]["o"].get("c") or s["v"]["o"].get("m")
                     if pl and any(isinstance(p, str) and p.startswith("[_") for p in pl[1:]):
                         ix = [int(p[2:-1]) for p in pl[1:] if isinstance(p, str) and p.startswith("[_")][0]
-                        nm = r.local_name(s["a"][0])
-                        if nm and ix in consts:
-                            rd[nm] = (consts[ix], consts[ix] + 1)
+                        if ix in consts:
+                            rd_local[s["a"][0]] = (consts[ix], consts[ix] + 1)
         ranges = []
         for (bb, j, av, dst) in r.aggregates("ops::Range"):
             try:
@@ -120,16 +120,17 @@ def run(ctx):
         if len(dec) != len(ranges):
             raise AnchorMissing("read_from: %d ranges vs %d from_le_bytes" % (len(ranges), len(dec)))
         for (bb, st, en), c in zip(ranges, dec):
-            nm = r.local_name(c.dest[0])
             if not (r.can_reach(bb, c.bb)):
                 raise AnchorMissing("range/from_le_bytes pairing")
-            rd[nm] = (st, en)
-        inst.sites.append("read_from: %s" % sorted(rd.items(), key=lambda kv: kv[1]))
-        # aggregate fields come from the like-named locals
+            rd_local[c.dest[0]] = (st, en)
+        # each aggregate field is filled (through moves only) from exactly one decoded local
         for f, o_ in zip(v["fields"], v["o"]):
-            nms = {r.local_name(x) for x in r._origin_locals(o_)} - {None}
-            if f not in nms:
-                bad.append(("header-field-source:%s" % f, "ColumnBlockHeader.%s is filled from local(s) %s" % (f, sorted(nms)), None))
+            src = [x for x in r._origin_locals(o_) if x in rd_local]
+            if len(src) != 1:
+                bad.append(("header-field-source:%s" % f, "ColumnBlockHeader.%s is not filled from exactly one decoded value" % f, None))
+            else:
+                rd[f] = rd_local[src[0]]
+        inst.sites.append("read_from: %s" % sorted(rd.items(), key=lambda kv: kv[1]))
         for f, rng in offs.items():
             if rd.get(f) != rng:
                 bad.append(("layout:%s" % f, "header field %s is written at bytes %s but read from %s" % (f, rng, rd.get(f)), None))
